@@ -14,8 +14,8 @@ import (
 func c07Resolutions(r *rng, k int) []spec.Resolution {
 	res := []spec.Resolution{
 		{Adv: "identity"},
-		{Adv: "reverse", T0: 1_700_000_000_000_000_000 + int64(r.intn(1<<30)), Rate: 100_000}, // a 100x slower machine
-		{Adv: "rotate", AdvSeed: r.next(), Entropy: r.next(), Rate: 20},                         // a 50x faster one
+		{Adv: "reverse", T0: 1_700_000_000_000_000_000 + int64(r.intn(1<<30)), Rate: 100_000, StackDepth: 700}, // a 100x slower machine, called from deep inside the application
+		{Adv: "rotate", AdvSeed: r.next(), Entropy: r.next(), Rate: 20, StackDepth: 40},                         // a 50x faster one
 	}
 	for len(res) < k {
 		x := spec.Resolution{Adv: "seeded", AdvSeed: r.next()}
@@ -27,6 +27,9 @@ func c07Resolutions(r *rng, k int) []spec.Resolution {
 		}
 		if r.chance(50) {
 			x.Rate = pick(r, int64(10), 200, 5_000, 50_000, 100_000) // real loop iterations take 10-30 ns: up to ~5000x slower than this machine
+		}
+		if r.chance(50) {
+			x.StackDepth = pick(r, 3, 64, 300, 1000, 2500) // how deep the caller's own stack is when it calls Layout
 		}
 		res = append(res, x)
 	}
@@ -316,6 +319,16 @@ func (cx *Ctx) c07Attribute(job *spec.Job, j int) {
 		return
 	}
 
+	// the depth of the caller's stack only?
+	if rj.StackDepth != r0.StackDepth {
+		dOnly := r0
+		dOnly.StackDepth = rj.StackDepth
+		if d, _ := cx.differs(c, r0, dOnly, false); d {
+			sc := shrinkCall(c, func(t spec.Call) bool { d, _ := cx.differs(t, r0, dOnly, false); return d }, 30*time.Second)
+			cx.c07Report(sc, r0, dOnly)
+			return
+		}
+	}
 	// clock / entropy only?
 	plain := rj
 	plain.Adv, plain.AdvSeed, plain.Overrides = "identity", 0, nil
